@@ -69,8 +69,11 @@ def gen_remset(rnd, plan, info, heap, workers, rounds=6):
     for rd in range(rounds):
         m = r.choice([0, 1])
         newy = []
-        for _ in range(r.randrange(2, 9)):
-            u = r.random()
+        # a third of the rounds: the mutator's ONLY old->young stores of the epoch go through the array-copy barrier (its
+        # object mod-buffer stays empty, its region mod-buffer does not) — the two buffers are flushed independently
+        region_only = r.random() < 0.34
+        for _ in range(r.randrange(2, 9) if not region_only else r.randrange(1, 4)):
+            u = r.random() if not region_only else 0.75
             h = r.choice(holders)
             f = r.randrange(g.nf[h])
             if u < 0.5:                       # one young object, reachable only through h.f
